@@ -58,8 +58,23 @@ def h_src_eof(ctx, NMAX):
     rt = Retry(limit)
     phase = 1
     cur = eof0
+    nak_done = False
     for r in range(2 * NMAX + 3):
-        what = ctx.pick(f"r{r}", ["TICK", "ACK"] if phase == 1 else ["TICK"])
+        what = ctx.pick(f"r{r}", (["TICK", "ACK"] + ([] if (nak_done or r > 2) else ["NAK"])) if phase == 1 else ["TICK"])
+        if what == "NAK":
+            # a NAK (re-request of the Metadata PDU) is served in between, no time passes: the sender resumes
+            # waiting for the EOF ACK where it was - timer and expiry count are not touched
+            nak_done = True
+            o = sc.nak([(0, 0)])
+            hsrc.end_if_other_property(ctx, o)
+            o2 = sc.sm()
+            hsrc.end_if_other_property(ctx, o2)
+            ctx.covered("nak_served_while_waiting")
+            ctx.prop("nak_served_without_side_effects",
+                     [pdu_kind(p) for p in o.pdus + o2.pdus] == ["MD"] and not o.faults and not o2.faults
+                     and sc.rig.h.step == SStep.WAITING_FOR_EOF_ACK,
+                     lambda: {"sig": f"NAK while waiting for the EOF ACK: {o.kinds() + o2.kinds()} step {sc.rig.h.step.name}"})
+            continue
         if what == "ACK":
             w.tick(ctx.int(f"dta{r}", 0, 2))  # possibly together with a timer expiry
             # the acknowledging entity may already have closed (or never known) the transaction: its ACK
@@ -221,7 +236,7 @@ def h_dst_fin(ctx, NMAX):
     ctx.covered("loop_exhausted")
 
 
-def h_dst_nak(ctx, NMAX, multi=False, nomd=False):
+def h_dst_nak(ctx, NMAX, multi=False, nomd=False, gap_first=False):
     w = World(ctx)
     limit = ctx.int("limit", 1, NMAX)
     L = ctx.int("L", 1, hdst.LMAX)
@@ -237,7 +252,16 @@ def h_dst_nak(ctx, NMAX, multi=False, nomd=False):
     sc.M = 2
     S = sc.S
     ctx.assume(S <= 2 * L, S > L)  # two segments
-    for o in (sc.md(), sc.eof()):
+    if gap_first:
+        # the second segment arrives first (immediate NAK for the gap, if that mode is on), then time passes
+        # before the EOF: the limit counts expiries after the first DEFERRED sequence, not since that NAK
+        pre = [sc.md(), sc.grid_fd(1)]
+        w.tick(ctx.int("dt_gap", 0, 2))
+        pre.append(sc.eof())
+        ctx.covered("gap_before_eof")
+    else:
+        pre = [sc.md(), sc.eof()]
+    for o in pre:
         hdst.end_if_other_property(ctx, o)
     o = sc.tick0()
     hdst.end_if_other_property(ctx, o)
@@ -246,6 +270,10 @@ def h_dst_nak(ctx, NMAX, multi=False, nomd=False):
              lambda: {"sig": str(o.kinds())})
     rt = Retry(limit)
     data_given = False
+    first_seg = 0
+    if gap_first:
+        # segment 1 is there, segment 0 is missing; no further data arrives in this variant
+        data_given, first_seg = True, None
     for r in range(2 * NMAX + 2):
         what = ctx.pick(f"r{r}", ["TICK"] if data_given else ["TICK", "DATA"])
         if what == "DATA":
@@ -267,7 +295,7 @@ def h_dst_nak(ctx, NMAX, multi=False, nomd=False):
         rt.n += 1
         if rt.n < limit:
             ctx.covered("nak_reissued")
-            want = (L, S) if data_given else (0, S)
+            want = (0, L) if gap_first else ((L, S) if data_given else (0, S))
             reqs = [tuple(q) for p in naks for q in p.segment_requests]
             ctx.prop("resend_on_each_expiry", len(naks) >= 1 and len(reqs) == 1
                      and sand(reqs[0][0] == want[0], reqs[0][1] == want[1]),
@@ -384,7 +412,8 @@ def plan(tier):
     n = 3 if tier == "quick" else 5
     return [
         Spec(f"src/eof-ack-procedure/Nmax={n}", "vf.harness.c04:h_src_eof", {"NMAX": n}, twin_share=0.2,
-             obligations=["limit_fault", "abandoned", "peer_resumed"] + (["eof_resent"] if n > 1 else [])),
+             obligations=["limit_fault", "abandoned", "peer_resumed", "nak_served_while_waiting"]
+             + (["eof_resent"] if n > 1 else [])),
         Spec(f"src/eof-ack-procedure/filestore-fails/Nmax={n}", "vf.harness.c04:h_src_eof_env_fails", {"NMAX": n},
              twin_share=0.5, obligations=["environment_error_surfaced"]),
         Spec(f"dest/finished-ack-procedure/Nmax={n}", "vf.harness.c04:h_dst_fin", {"NMAX": n}, twin_share=0.2,
@@ -394,6 +423,8 @@ def plan(tier):
         Spec(f"dest/nak-procedure/two-PDU-sequences/Nmax={n}", "vf.harness.c04:h_dst_nak",
              {"NMAX": n, "multi": True}, twin_share=0.2,
              obligations=["limit_fault", "nak_reissued", "multi_pdu_sequence"]),
+        Spec(f"dest/nak-procedure/gap-before-eof/Nmax={n}", "vf.harness.c04:h_dst_nak",
+             {"NMAX": n, "gap_first": True}, twin_share=0.2, obligations=["limit_fault", "gap_before_eof"]),
         Spec(f"dest/nak-procedure/metadata-missing/Nmax={n}", "vf.harness.c04:h_dst_nak",
              {"NMAX": n, "nomd": True}, twin_share=0.2,
              obligations=["limit_fault", "nak_reissued", "metadata_missing"]),
